@@ -3,22 +3,55 @@ from .. import machine as M
 from ..core import parallel_map
 
 DRIVERS = ["drv_machine"]
-GENERATED = ["Handlers", "Markers"]
+GENERATED = ["Handlers", "Markers", "HeaderWrite"]
 
 ENDINGS = [None, "-", "+", " "]
 
 
-def section(rng, kind, ending):
+def section(rng, kind, ending, p_commit=0.3):
     f = M.gen_file(rng, kind=kind, ending=ending)
     # `git log -p`: a section may be the first of a commit (the commit lines then close the previous section)
-    pre = M.gen_commit(rng) if rng.random() < 0.3 else []
+    pre = M.gen_commit(rng) if rng.random() < p_commit else []
     return pre + f["lines"]
+
+
+# element styles whose `raw` / `omit` value changes which handler claims a line and whether a header is written at all
+ELEMS = [("file", "fileRaw", "fileOmit", "fileDeco"), ("hunk-header", "hhRaw", "hhOmit", "hhDeco"),
+         ("commit", "commitRaw", "commitOmit", "commitDeco")]
+# sections that leave per-file state which is consumed (not reset) later: the mode information
+MODE_KINDS = ["mode_changed", "mode_only", "binary_mode_changed"]
+
+
+def style_family(ctx, rng):
+    """raw / omit element styles x decorations for the file, hunk-header and commit styles, each over sequences of sections
+    that start with a mode change (the state a header write must consume) - and over sequences that do not.
+    Returns [(signature prefix, cfg, seq)]."""
+    fam = []
+    for elem, rawk, omitk, decok in ELEMS:
+        for style in ("raw", "omit"):
+            decos = list(range(len(M.DECOS))) if not ctx.quick() else [0] + rng.sample(range(1, len(M.DECOS)), 2)
+            variants = [(False, d) for d in decos] + [(True, 0)]        # color-only mode has no decorations
+            for co, deco in variants:
+                for r in range(ctx.n(1 if co else 2, 8)):
+                    cfg = M.gen_cfg(rng, color_only=co)
+                    for _, rk, ok, _ in ELEMS:
+                        cfg.d[rk] = cfg.d[ok] = 0
+                    cfg.d[rawk if style == "raw" else omitk] = 1
+                    if not co:
+                        cfg.d[decok] = deco
+                    first = MODE_KINDS[(r + deco) % len(MODE_KINDS)] if r % 4 != 3 else rng.choice(M.FILE_KINDS)
+                    seq = [(first, rng.choice(ENDINGS))] + [(rng.choice(M.FILE_KINDS + MODE_KINDS), rng.choice(ENDINGS))
+                                                           for _ in range(rng.randint(1, 2))]
+                    fam.append((f"{elem}-style-{style}", cfg, seq, 0.6 if elem == "commit" else 0.2))
+    return fam
 
 
 def run(ctx, rep):
     rep.rule = ("ordered pairs / random sequences of complete git file sections of every kind, each ending in any line kind, "
                 "under random unified-view configurations: delta(A++B) must equal delta(A)++delta(B), and repeated runs must be "
-                "byte-identical; non-trivial = >= 2 sections of different kinds; distinct by (config, input)")
+                "byte-identical; non-trivial = >= 2 sections of different kinds; distinct by (config, input). Style family: "
+                "raw / omit x decorations (and color-only) for the file, hunk-header and commit styles, over sequences that start "
+                "with a mode change (state that a header write consumes), hook level and real binary with delta's own decorations")
     rng = ctx.rng
     seqs = []
     kinds = M.FILE_KINDS
@@ -30,9 +63,14 @@ def run(ctx, rep):
     for _ in range(ctx.n(60, 3000)):
         seqs.append([(rng.choice(kinds), rng.choice(ENDINGS)) for _ in range(rng.randint(2, 5))])
     cases, meta = [], []
-    for seq in seqs:
-        cfg = M.gen_cfg(rng, color_only=(rng.random() < 0.15))
-        secs = [section(rng, k, e) for k, e in seq]
+
+    def items():     # the random choices are drawn in the order: configuration, then the sections of its sequence
+        for seq in seqs:
+            yield None, M.gen_cfg(rng, color_only=(rng.random() < 0.15)), seq, 0.3
+        yield from style_family(ctx, rng)
+    for fam, cfg, seq, p_commit in items():
+        secs = [section(rng, k, e, p_commit) for k, e in seq]
+        seq = list(seq) + [fam]          # the family rides along as the last element of the meta record
         whole = [l for s in secs for l in s]
         cases.append((cfg, [l.encode() for l in whole]))
         meta.append(("whole", seq, secs, cfg))
@@ -43,6 +81,7 @@ def run(ctx, rep):
     i = 0
     while i < len(cases):
         kind, seq, secs, cfg = meta[i]
+        seq, fam = seq[:-1], seq[-1]
         impl, model = res[i]
         parts = []
         j = i + 1
@@ -55,12 +94,15 @@ def run(ctx, rep):
                  sample=dict(kinds=seq, n_lines=len(whole), args=" ".join(cfg.args()[:4]) + " …"))
         for k, _ in seq:
             rep.count("kind:" + k)
+        if fam:
+            rep.count("family:" + fam + (":color-only" if cfg.d["colorOnly"] else ":deco-" + M.DECOS[cfg.d[
+                {"file": "fileDeco", "hunk": "hhDeco", "commit": "commitDeco"}[fam.split("-")[0]]]].replace(" ", "")))
         if impl.panic or any(p[0].panic for p in parts):
             rep.violation("panic:" + impl.msg[:60], "implementation panicked: " + impl.msg[:200], case)
         elif impl.ok and all(p[0].ok for p in parts):
             cat = b"".join(p[0].out for p in parts)
             if impl.out != cat:
-                rep.violation("concat:" + "+".join(k for k, _ in seq[:2]),
+                rep.violation("concat:" + (fam + ":" if fam else "") + "+".join(k for k, _ in seq[:2]),
                               "delta(A++B) differs from delta(A)++delta(B)",
                               dict(case, whole=impl.out.decode("utf-8", "replace")[-600:], parts=cat.decode("utf-8", "replace")[-600:]))
             dis = M.compare(cfg, impl, model)
@@ -79,21 +121,36 @@ def run(ctx, rep):
         secs = [M.gen_file(rng, kind=k, ending=e, paths=LANG_PATHS)["lines"] for k, e in seq]
         args = ["--no-gitconfig", "--true-color=always"] + rng.choice([[], ["--side-by-side"], ["--line-numbers"], ["--syntax-theme", "GitHub"],
                                                                           ["--hunk-header-style", "file line-number syntax"]])
-        bjobs.append((args, seq, secs))
+        bjobs.append((args, seq, secs, None))
+    # ... and with raw / omit element styles next to delta's own decorations (`--file-style raw` keeps the default
+    # `blue ul` file decoration: the header lines are then handled, and written as received)
+    STYLE_ARGS = [(f"{elem}-style-{st}", [f"--{elem}-style", st] + extra)
+                  for elem in ("file", "hunk-header", "commit") for st in ("raw", "omit")
+                  for extra in ([], [f"--{elem}-decoration-style", "box"], [f"--{elem}-decoration-style", "ul ol"],
+                                [f"--{elem}-decoration-style", "none"])]
+    for n in range(ctx.n(36, 1200)):
+        fam, sargs = STYLE_ARGS[n % len(STYLE_ARGS)] if n < 2 * len(STYLE_ARGS) else rng.choice(STYLE_ARGS)
+        # one pass over every style with a mode change first and nothing else switched on, then random ones
+        sure = n < len(STYLE_ARGS)
+        first = MODE_KINDS[(n // 4 + n) % len(MODE_KINDS)] if sure or rng.random() < 0.7 else rng.choice(M.FILE_KINDS)
+        seq = [(first, rng.choice(ENDINGS))] + [(rng.choice(M.FILE_KINDS + MODE_KINDS), rng.choice(ENDINGS)) for _ in range(rng.randint(1, 2))]
+        secs = [section(rng, k, e, 0.6 if fam.startswith("commit") else 0.2) for k, e in seq]
+        args = ["--no-gitconfig", "--true-color=always"] + sargs + ([] if sure else rng.choice([[], ["--line-numbers"], ["--color-only"]]))
+        bjobs.append((args, seq, secs, fam))
 
     def brun(j):
-        args, seq, secs = j
+        args, seq, secs, _ = j
         enc = lambda ls: ("\n".join(ls) + "\n").encode("utf-8", "surrogateescape")
         return [ctx.run_delta(args, enc([l for s in secs for l in s]))] + [ctx.run_delta(args, enc(s)) for s in secs]
-    for (args, seq, secs), outs in zip(bjobs, parallel_map(brun, bjobs)):
+    for (args, seq, secs, fam), outs in zip(bjobs, parallel_map(brun, bjobs)):
         whole = [l for s in secs for l in s]
         case = dict(kind="binary-concat", args=args, input="\n".join(whole), sections=[len(s) for s in secs], kinds=seq)
         rep.case(key=("bin", tuple(args), tuple(whole)), nontrivial=True, sample=dict(level="binary", kinds=seq, args=args))
-        rep.count("binary-concat")
+        rep.count("binary-concat" + (":" + fam if fam else ""))
         if any(o[0] != 0 for o in outs):
             rep.violation("exit-status", f"exit status {[o[0] for o in outs]}", case); continue
         if outs[0][1] != b"".join(o[1] for o in outs[1:]):
-            rep.violation("concat-binary:" + "+".join(k for k, _ in seq[:2]),
+            rep.violation("concat-binary:" + (fam + ":" if fam else "") + "+".join(k for k, _ in seq[:2]),
                           "delta(A++B) differs from delta(A)++delta(B) with delta's own styles (syntax highlighting on)", case)
     # determinism: repeated runs of the real binary (fresh process => fresh hash seeds)
     det = []
